@@ -2565,7 +2565,7 @@ def drain_strategy(tier: str):
 
 FAMILIES = [
     Family('reader', run_reader, strategy=reader_strategy,
-           budget={'quick': 260, 'thorough': 12000},
+           budget={'quick': 600, 'thorough': 12000},
            required={'all': ['sep-spans-packet', 'n>window', 'sep-tuple',
                              'sep-regex', 'incomplete', 'window-full',
                              'concurrent', 'chunk-1byte', 'exit-before-data',
@@ -2573,13 +2573,13 @@ FAMILIES = [
                              'final-iter', 'sep-found']},
            timeout_is_violation=True, case_timeout=120),
     Family('srvreader', run_srvreader, strategy=srvreader_strategy,
-           budget={'quick': 110, 'thorough': 4000},
+           budget={'quick': 220, 'thorough': 4000},
            required={'all': ['strict', 'weak', 'exc-raised',
                              'exc-between-data', 'inc-before-exc',
                              'end-close', 'end-eof']},
            timeout_is_violation=True, case_timeout=120),
     Family('process', run_process, strategy=process_strategy,
-           budget={'quick': 110, 'thorough': 5000},
+           budget={'quick': 260, 'thorough': 5000},
            required={'all': ['exit-before-data', 'status-before-read',
                              'client-run', 'client-wait',
                              'client-communicate', 'timeout', 'input-checked',
@@ -2587,7 +2587,7 @@ FAMILIES = [
                              'end-signal', 'end-close']},
            timeout_is_violation=True, case_timeout=120),
     Family('redirect', run_redirect, strategy=redirect_strategy,
-           budget={'quick': 150, 'thorough': 5000},
+           budget={'quick': 320, 'thorough': 5000},
            # (25 endpoint kinds: each is only required of the thorough tier)
            required={'quick': ['data>window', 'late-redirect', 'proc-to-proc',
                                'no-recv_eof', 'no-send_eof', 'stdout-stream',
@@ -2600,7 +2600,7 @@ FAMILIES = [
                      ['stdin-' + k for k in SRC_KINDS]},
            timeout_is_violation=True, case_timeout=120),
     Family('drain', run_drain, strategy=drain_strategy,
-           budget={'quick': 60, 'thorough': 2500},
+           budget={'quick': 120, 'thorough': 2500},
            required={'all': ['drain-blocked', 'drain-immediate',
                              'closed-while-paused', 'finish-read',
                              'finish-peer-close', 'finish-cut',
